@@ -8,7 +8,7 @@
 EXTENDS Naturals, Sequences, FiniteSets, TLC, Json, IOUtils
 
 Trace == ndJsonDeserialize(IOEnv.TRACE_FILE)
-VARIABLES l, nrej, run, firstStore, oids, lastEnter, enterKey, missed
+VARIABLES l, nrej, run, firstStore, oids, lastEnter, enterKey, missed, base
 
 K(e) == <<e.cache, e.key>>
 Get(f, k, d) == IF k \in DOMAIN f THEN f[k] ELSE d
@@ -18,6 +18,7 @@ OI(e) == IF Fresh(e) THEN <<>> ELSE oids
 LE(e) == IF Fresh(e) THEN <<>> ELSE lastEnter
 EK(e) == IF Fresh(e) THEN <<>> ELSE enterKey
 MI(e) == IF Fresh(e) THEN <<>> ELSE missed
+BA(e) == IF Fresh(e) THEN <<>> ELSE base
 
 (* A1: a miss is admissible only if no store of that key was logged before this thread entered *)
 A1(e) == e.ev = "miss" => (Get(LE(e), e.th, 0) > 0 /\ (Get(FS(e), K(e), 0) = 0 \/ Get(FS(e), K(e), 0) > Get(LE(e), e.th, 0)))
@@ -31,11 +32,20 @@ A3(e) == e.ev = "ret" => (/\ Get(EK(e), e.th, <<>>) = K(e)
                           /\ e.full)
 (* A4: every event belongs to a call that entered (no hook is missing) *)
 A4(e) == e.ev # "enter" => Get(LE(e), e.th, 0) > 0
-ClauseNames == <<"A1", "A2", "A3", "A4">>
-Clauses(e) == [A1 |-> A1(e), A2 |-> A2(e), A3 |-> A3(e), A4 |-> A4(e)]
+(* A5: the projected state of the real cache (its key set, read at the hook) agrees with the model: every key whose store *)
+(* was logged is present (CacheMonotone), and nothing is present that was neither there when the cache was first seen in  *)
+(* this process nor being filled by a thread that logged a miss                                                             *)
+KeySet(e) == {e.keys[i] : i \in 1..Len(e.keys)}
+Stored(e) == {k \in DOMAIN FS(e) : k[1] = e.cache}
+InFlight(e) == {k \in DOMAIN OI(e) : k[1] = e.cache}
+Base0(e) == Get(BA(e), e.cache, KeySet(e))
+A5(e) == /\ \A k \in Stored(e) : k[2] \in KeySet(e)
+         /\ \A x \in KeySet(e) : x \in Base0(e) \/ <<e.cache, x>> \in InFlight(e)
+ClauseNames == <<"A1", "A2", "A3", "A4", "A5">>
+Clauses(e) == [A1 |-> A1(e), A2 |-> A2(e), A3 |-> A3(e), A4 |-> A4(e), A5 |-> A5(e)]
 Failing(e) == LET c == Clauses(e) IN SelectSeq(ClauseNames, LAMBDA n : ~c[n])
 
-Init == l = 1 /\ nrej = 0 /\ run = 0 /\ firstStore = <<>> /\ oids = <<>> /\ lastEnter = <<>> /\ enterKey = <<>> /\ missed = <<>>
+Init == l = 1 /\ nrej = 0 /\ run = 0 /\ firstStore = <<>> /\ oids = <<>> /\ lastEnter = <<>> /\ enterKey = <<>> /\ missed = <<>> /\ base = <<>>
 Step ==
   /\ l <= Len(Trace)
   /\ LET e == Trace[l]  bad == Failing(e)
@@ -46,10 +56,11 @@ Step ==
         /\ oids' = IF e.ev = "miss" THEN (K(e) :> (Get(OI(e), K(e), {}) \cup {e.th})) @@ OI(e) ELSE OI(e)
         /\ lastEnter' = IF e.ev = "enter" THEN (e.th :> e.seq) @@ LE(e) ELSE LE(e)
         /\ enterKey' = IF e.ev = "enter" THEN (e.th :> K(e)) @@ EK(e) ELSE EK(e)
+        /\ base' = IF e.cache \in DOMAIN BA(e) THEN BA(e) ELSE (e.cache :> KeySet(e)) @@ BA(e)
         /\ missed' = IF e.ev = "miss" THEN (e.th :> K(e)) @@ MI(e)
                      ELSE IF e.ev = "enter" THEN (e.th :> <<>>) @@ MI(e) ELSE MI(e)
   /\ l' = l + 1
-Spec == Init /\ [][Step]_<<l, nrej, run, firstStore, oids, lastEnter, enterKey, missed>>
+Spec == Init /\ [][Step]_<<l, nrej, run, firstStore, oids, lastEnter, enterKey, missed, base>>
 Accepted == /\ TLCGet("stats").diameter - 1 = Len(Trace)
             /\ PrintT(<<"DONE", Len(Trace), TLCGet("stats").diameter - 1>>)
 =============================================================================
